@@ -332,26 +332,35 @@ impl<'a> Interpreter<'a> {
                 }
                 ByteCode::MkDict(size) => {
                     let mut entries = Vec::new();
+                    let mut bad_key = false;
 
                     for _ in 0..*size {
-                        let key = if let CelValue::String(key) = stack.pop_val()? {
-                            key
-                        } else {
-                            return Err(CelError::value("Only strings can be used as Object keys"));
-                        };
+                        let key = stack.pop_val()?;
+                        let value = stack.pop_val()?;
 
-                        entries.push((key, stack.pop_val()?));
+                        match key {
+                            CelValue::String(key) => entries.push((key, value)),
+                            _ => bad_key = true,
+                        }
                     }
 
-                    // entries come off the stack last-first; insert in source
-                    // order so that the last entry of a repeated key wins, as
-                    // it does when the literal is folded by the compiler
-                    let mut map = HashMap::new();
-                    for (key, value) in entries.into_iter().rev() {
-                        map.insert(key, value);
-                    }
+                    // a failed literal is a value, as it is when the compiler
+                    // folds it: `[{0: 1}]` and `[{x: 1}]` with x = 0 agree
+                    if bad_key {
+                        stack.push_val(CelValue::from_err(CelError::value(
+                            "Only strings can be used as Object keys",
+                        )));
+                    } else {
+                        // entries come off the stack last-first; insert in source
+                        // order so that the last entry of a repeated key wins, as
+                        // it does when the literal is folded by the compiler
+                        let mut map = HashMap::new();
+                        for (key, value) in entries.into_iter().rev() {
+                            map.insert(key, value);
+                        }
 
-                    stack.push_val(map.into());
+                        stack.push_val(map.into());
+                    }
                 }
                 ByteCode::Index => {
                     let index = stack.pop_val()?;
